@@ -112,6 +112,7 @@ func (e *env) runSeq(q seqT) {
 	ctx := world.Fork(e.s.bases[A.Base])
 	used := map[string]bool{}
 	var trace []string
+	cumExpected := 0
 	e.r.Case(key)
 	e.stats["sequences:"+q.Kind]++
 	for bi, blk := range q.Blocks {
@@ -204,6 +205,19 @@ func (e *env) runSeq(q seqT) {
 			}
 			anyExpected = anyExpected || r.expect
 			e.stats[fmt.Sprintf("seq-outcome:%s:accepted=%v", q.Kind, accepted)]++
+		}
+		// whatever was accepted, the chain is listed at most once per snapshot
+		for _, r := range rs {
+			if r.expect {
+				cumExpected++
+			}
+		}
+		for id, n := range after.ChainsOf {
+			// (two messages legitimately accepted with two different transactions list it twice)
+			if n > 1 && cumExpected <= 1 {
+				e.r.Violate("effects-applied-twice:"+q.Kind+":"+q.Name, fmt.Sprintf("%s\nblock %d: snapshot %d lists the chain %d times", strings.Join(trace, "\n"), bi, id, n), rep)
+				return
+			}
 		}
 		// effects: present iff something was expected to be accepted in this or an earlier block
 		if !anyExpected {
@@ -363,4 +377,144 @@ func (e *env) liveness(shard, nshards int) {
 	for k, v := range out {
 		e.r.Extra["liveness: "+k] = v
 	}
+}
+
+// ---------------------------------------------------------------------------
+// replay at a distance: message A is attested with transaction T; `dist` blocks
+// later the same remote transaction is offered for a message with the
+// byte-identical reference input — either the twin that has been waiting in the
+// queue, or a twin enqueued after the gap (a re-publication: same content, new
+// id, estimated / signed / published again). It must be refused at every
+// distance.
+
+var replayDistances = []int64{1, 301, 601, 10_000}
+
+func (e *env) distanceKey(kind string, dist int64, fresh bool) string {
+	who := "waiting-twin"
+	if fresh {
+		who = "re-published-twin"
+	}
+	return fmt.Sprintf("replay-distance|%s|+%d blocks|%s", kind, dist, who)
+}
+
+func (e *env) runDistance(kind string, dist int64, fresh bool) {
+	key := e.distanceKey(kind, dist, fresh)
+	if e.replay != "" && key != e.replay {
+		return
+	}
+	if e.capped {
+		return
+	}
+	rep := map[string]interface{}{"case": key}
+	s := e.s
+	A, tw := s.tg[kind], s.tw[kind]
+	ctx := world.Fork(s.bases[A.Base])
+	c := caseT{Kind: kind, Sigs: -1, Ev: "status=1"}
+	data, _, err := e.input(c)
+	must(err)
+	p, tx := e.proof(c, data)
+	e.r.Case(key)
+	e.stats["replay-distance:"+kind]++
+	if ee := e.offer(ctx, A.ID, p); ee != "" {
+		e.r.Violate("harness:evidence-tx-refused", key+": "+ee, rep)
+		return
+	}
+	if hits := e.endBlock(ctx); len(hits) > 0 || e.queued(ctx, A.ID) {
+		e.r.Violate("reject-valid:"+kind, fmt.Sprintf("%s: the reference transaction was not accepted for message %d: %v", key, A.ID, hits), rep)
+		return
+	}
+	ctx = world.Advance(ctx, dist, time.Duration(dist)*1500*time.Millisecond)
+	t := tw
+	if fresh {
+		nid := s.clone(ctx, tw.ID)
+		s.estimate(ctx, 0)
+		s.sign(ctx, variants[0].Order)
+		t = nil
+		for _, m := range s.w.Queue(ctx, s.queue) {
+			if m.GetId() == nid {
+				t = &target{Kind: kind, ID: nid, Base: A.Base, Msg: s.evmMsg(m), Sigs: m.GetSignData(), Gas: m.GetGasEstimate()}
+				if pad := m.GetPublicAccessData(); pad != nil {
+					t.PubVS = pad.GetValsetID()
+				}
+			}
+		}
+		if t == nil {
+			e.r.Violate("harness:re-published-twin-missing", key, rep)
+			return
+		}
+	}
+	// the twin's reference encodings, from the twin itself in the present state
+	identical := false
+	if kind == kUpload {
+		d, err := s.reference(ctx, t, nil).pack(e.abi)
+		must(err)
+		identical = string(d) == string(data)
+	} else {
+		for n := 1; n <= len(t.Sigs); n++ {
+			d, err := s.reference(ctx, t, t.Sigs[:n]).pack(e.abi)
+			must(err)
+			identical = identical || string(d) == string(data)
+		}
+	}
+	if !identical && kind != kSLC {
+		e.r.Violate("harness:twin-not-identical", key+": the twin's reference input differs from the first message's", rep)
+		return
+	}
+	cctx := world.Fork(ctx)
+	e.endBlock(cctx)
+	ctl := e.snapshot(cctx)
+	if ee := e.offer(ctx, t.ID, p); ee != "" {
+		e.r.Violate("harness:evidence-tx-refused", key+": "+ee, rep)
+		return
+	}
+	hits := e.endBlock(ctx)
+	after := e.snapshot(ctx)
+	removed := !e.queued(ctx, t.ID)
+	accepted := removed && len(hits) == 0
+	trace := fmt.Sprintf("%s\n message %d attested with tx %s at height %d; at height %d the same transaction was offered (quorum) for message %d whose reference input is byte-identical=%v: removed=%v log=%s",
+		key, A.ID, tx.Hash().Hex(), s.bases[A.Base].BlockHeight(), ctx.BlockHeight(), t.ID, identical, removed, rejectClass(hits))
+	e.stats[fmt.Sprintf("replay-distance-outcome:%s:%s", kind, rejectClass(hits))]++
+	if accepted {
+		e.r.Violate(fmt.Sprintf("replay:accepted-twice:after-%d-blocks", dist), trace, rep)
+		return
+	}
+	var diff []string
+	if d := diffMaps(ctl.Evm, after.Evm); len(d) > 0 {
+		diff = append(diff, fmt.Sprintf("evm%v", d))
+	}
+	for _, st := range otherStores {
+		if ctl.Digest[st] != after.Digest[st] {
+			diff = append(diff, st)
+		}
+	}
+	for id, n := range after.ChainsOf {
+		if ctl.ChainsOf[id] != n {
+			diff = append(diff, fmt.Sprintf("snapshot %d lists the chain %d times (was %d)", id, n, ctl.ChainsOf[id]))
+		}
+	}
+	if len(diff) > 0 {
+		e.r.Violate(fmt.Sprintf("replay:effects-twice:after-%d-blocks", dist), trace+fmt.Sprintf("\n state changed: %v", diff), rep)
+	}
+}
+
+type distT struct {
+	Kind  string
+	Dist  int64
+	Fresh bool
+}
+
+func (e *env) distances() []distT {
+	var out []distT
+	for _, k := range kinds {
+		if e.s.tw[k] == nil {
+			continue
+		}
+		for _, d := range replayDistances {
+			out = append(out, distT{k, d, false})
+			if k != kSLC {
+				out = append(out, distT{k, d, true})
+			}
+		}
+	}
+	return out
 }
